@@ -9,6 +9,7 @@ import (
 	"crypto/ed25519"
 	"encoding/binary"
 	"encoding/hex"
+	"encoding/json"
 	"fmt"
 	"os"
 	"path/filepath"
@@ -126,15 +127,16 @@ type GenesisSpec struct {
 }
 
 type node struct {
-	c       *controller.Controller
-	st      *store.Store
-	dir     string
-	valKeys []crypto.PrivateKeyI
-	accKeys []crypto.PrivateKeyI
-	names   map[string]string // hex address -> short name
-	gen     *fsm.GenesisState
-	cfg     lib.Config
-	scanFSM *fsm.StateMachine // when set, scan() reads this state machine (e.g. the mempool's working copy) instead of the committed one
+	c        *controller.Controller
+	st       *store.Store
+	dir      string
+	valKeys  []crypto.PrivateKeyI
+	accKeys  []crypto.PrivateKeyI
+	names    map[string]string // hex address -> short name
+	gen      *fsm.GenesisState
+	cfg      lib.Config
+	approved map[string]json.RawMessage
+	scanFSM  *fsm.StateMachine // when set, scan() reads this state machine (e.g. the mempool's working copy) instead of the committed one
 }
 
 func addrName(names map[string]string, a []byte) string {
@@ -242,6 +244,20 @@ func (n *node) close() {
 		_ = n.st.Close()
 	}
 	_ = os.RemoveAll(n.dir)
+}
+
+// approve puts a governance proposal transaction on this node's approve list (proposals.json in its data directory)
+func (n *node) approve(tx lib.TransactionI) {
+	bz, err := lib.Marshal(tx)
+	if err != nil {
+		return
+	}
+	if n.approved == nil {
+		n.approved = map[string]json.RawMessage{}
+	}
+	n.approved[crypto.HashString(bz)] = json.RawMessage(`{"proposal":{},"approve":true}`)
+	out, _ := json.Marshal(n.approved)
+	_ = os.WriteFile(filepath.Join(n.dir, lib.ProposalsFilePath), out, 0o644)
 }
 
 func (n *node) height() uint64 { return n.c.FSM.Height() }
